@@ -547,6 +547,17 @@ ctl_impl!(2, 'c, Write<'c, R<1>>);
 ctl_impl!(3, 'c, (Read<'c, R<2>>, Write<'c, R<3>>));
 ctl_impl!(4, 'c, Option<Read<'c, R<4>>>);
 ctl_impl!(5, 'c, (Option<Write<'c, R<5>>>,));
+// controller data with a user-written setup handler that counts its calls: the data a controller declares is set up exactly
+// once per setup of the dispatcher (C13), also for MultiDispatchController
+pub static CTL_SETUP_CALLS: AtomicU64 = AtomicU64::new(0);
+pub struct CountSetup;
+impl shred::SetupHandler<R<6>> for CountSetup {
+    fn setup(world: &mut World) {
+        CTL_SETUP_CALLS.fetch_add(1, Ordering::SeqCst);
+        if !world.has_value::<R<6>>() { world.insert(R::<6>::default()); }
+    }
+}
+ctl_impl!(6, 'c, Read<'c, R<6>, CountSetup>);
 
 // ---------------------------------------------------------------------------------------
 // building
@@ -655,7 +666,7 @@ fn add_batch(
                     if ws { via(b, |x| x.with_batch(c, inner, name, &deps)) } else { b.add_batch(c, inner, name, &deps) }
                 }, )*
         _ => panic!("ctl menu index") } } }
-    m!(0, 1, 2, 3, 4, 5)
+    m!(0, 1, 2, 3, 4, 5, 6)
 }
 
 /// runs the calls of one level; returns None after the first panicking call
